@@ -191,7 +191,7 @@ def replay(path):
     cf = {cfg_name(c): c for c in all_cfgs()}
     rc = 0
     with vf.scratch() as sd:
-        ego = vf.build_ego(sd, vf.make_overlay(sd, []))
+        ego = ec.build_ego(sd)
         print(ad.text([case]))
         for n in names:
             s = setting(cf[n.split("/")[0]], mode)
@@ -221,11 +221,10 @@ def run():
         "cases share a process through a try/catch + recover wrapper; a diverging case is re-run in a process of its own before it is reported",
         "EgoControl cases in the two defect classes C10 reported on the unchanged tree (loop inside try, jump out of try) are left out"]
     with vf.scratch() as sd:
-        ov = vf.make_overlay(sd, [])
         env = vf.ego_env(sd)
         wide, deep = plan(thorough, rng)
         with ThreadPoolExecutor(max_workers=5) as ex:
-            f_bin = ex.submit(vf.build_ego, sd, ov)
+            f_bin = ex.submit(ec.build_ego, sd)
             f_core = ex.submit(ec.gen_cases, sd, "EgoCore_Prog_MC.cfg" if thorough else "EgoCore_Prog_MCq.cfg", None, None, 3000 if thorough else 1200)
             f_neg = ex.submit(ec.gen_cases, sd, "EgoCore_Prog_MC_fused.cfg", None, None, 900, 2)
             f_ctl = ex.submit(vf.tlc, "Ego", "EgoControl_Gen", "EgoControl_Genq.cfg", sd, workers=2, timeout=1200)
